@@ -155,7 +155,13 @@ fn one<S: Setup>(
             ));
         } else if has_npo && upstream_imbalanced && !ours {
             // imbalance on slots only the plugin tables touch: visible only to the upstream debugger
-            let sig = format!("bus/npo-table-slot/upstream-debugger/{}", p3r_verif::bus::npo_static_cause(&built.circuit));
+            // the directed recompose-dense family has its own keys (flavour, lane count)
+            let sig = if p3r_verif::pgen::is_recompose_dense(prog) {
+                let (lanes, split) = prog.recompose_cfg();
+                format!("bus/directed-recompose-dense/{}-lanes{lanes}/upstream-debugger", if split { "split-coeff" } else { "standard" })
+            } else {
+                format!("bus/npo-table-slot/upstream-debugger/{}", p3r_verif::bus::npo_static_cause(&built.circuit))
+            };
             out.push(CaseResult::violated(
                 format!("{key}:cross"),
                 sig,
@@ -237,6 +243,23 @@ fn directed<S: Setup>(idx: usize) -> Vec<CaseResult> {
     rs
 }
 
+/// Directed stream 2 (`pgen::recompose_dense_programs`): recompose tables dense in rows, both
+/// flavours, 1-3 lanes, always cross-checked with upstream's lookup debugger.
+fn dense<S: Setup>() -> Vec<CaseResult> {
+    let mut out = vec![];
+    for (variant, n, prog, publics) in p3r_verif::pgen::recompose_dense_programs::<S>() {
+        for cfg in [PackCfg::default_cfg(), PackCfg { alu_lanes: 3, public_lanes: 2, ..PackCfg::default_cfg() }] {
+            let key = format!("directed:{}:recompose-dense:v{variant}:n{n}:{}", S::NAME, cfg.key());
+            let mut rs = one::<S>(&prog, &publics, &[], &cfg, key, true, false, "directed");
+            for r in rs.iter_mut() {
+                *r = std::mem::replace(r, CaseResult::held("", false)).count("directed/recompose-dense", 1);
+            }
+            out.extend(rs);
+        }
+    }
+    out
+}
+
 fn case<S: Setup>(seed: u64, idx: usize, tier: Tier) -> Vec<CaseResult> {
     let mut rng = case_rng(seed, "c09", idx as u64);
     let size = rng.random_range(1..tier.pick(30usize, 50usize));
@@ -298,6 +321,7 @@ fn main() {
         }
     });
     rep.add_all(rs);
+    rep.add_all(run_cases_isolated(SETUP_NAMES.len(), args.threads, |i| with_setup!(SETUP_NAMES[i], dense,)));
     // second stream: honest executions of row programs over the Poseidon permutation tables (Merkle
     // chains, index-accumulator exposure, tables of exactly 2^k rows) from the sibling binary c04npo:
     // an accepted honest proof shows the bus balanced; an unprovable one is handed to upstream's
